@@ -462,3 +462,16 @@ Definition last_touch (hist : list lop) (k : N) : option (Z * N) := lookT k (gho
 (* o adds/refreshes or removes k *)
 Definition undoes (k : N) (o : lop) : bool :=
   match o with LAdd k' _ => N.eqb k' k | LDelete k' => N.eqb k' k | LClear => true | _ => false end.
+
+(* ---------- "the stream has the length that was reserved", evaluated along a history ---------- *)
+Definition len_ok (s : st) (o : op) : bool :=
+  match o with
+  | A (PEnd t (WData len) _) | WtEnd t (WData len) =>
+      match lookupP t (s_pend (sy s)) with Some (Reserved _ sz) => N.eqb len sz | _ => true end
+  | _ => true
+  end.
+Fixpoint lens_ok (s : st) (ops : list op) : bool :=
+  match ops with
+  | [] => true
+  | o :: t => len_ok s o && lens_ok (fst (step false s o)) t
+  end.
